@@ -3,7 +3,7 @@
 # shows which other checks also notice a change (seeded/CROSS-<tier>.tsv: one row per change, one column per check).
 tier="${1:-quick}"; pat="${2:-*}"
 out=/verif/seeded/CROSS-$tier.tsv
-printf "seed" > "$out"; for i in $(seq -w 1 20); do printf "\tC%s" "$i" >> "$out"; done; printf "\n" >> "$out"
+if [ "$pat" = "*" ] || [ ! -f "$out" ]; then printf "seed" > "$out"; for i in $(seq -w 1 20); do printf "\tC%s" "$i" >> "$out"; done; printf "\n" >> "$out"; fi   # a glob appends
 for d in /verif/seeded/$pat/; do
   [ -f "$d/patch.diff" ] || continue
   n=$(basename "$d")
@@ -11,7 +11,7 @@ for d in /verif/seeded/$pat/; do
   git -C /repo worktree add -q --detach "$wt" HEAD || continue
   if ! git -C "$wt" apply "$d/patch.diff" 2>/dev/null; then echo "$n: patch does not apply"; git -C /repo worktree remove --force "$wt"; continue; fi
   ev="$(mktemp -d /tmp/vmon-ev-XXXXXX)"
-  seq -w 1 20 | xargs -P 16 -I{} sh -c "VERIF_REPO=$wt VERIF_EVIDENCE_DIR=$ev /verif/check C{} $tier > $ev/C{}.log 2>&1; echo \$? > $ev/C{}.exit"
+  seq -w 1 20 | xargs -P ${XJOBS:-12} -I{} sh -c "VERIF_REPO=$wt VERIF_EVIDENCE_DIR=$ev /verif/check C{} $tier > $ev/C{}.log 2>&1; echo \$? > $ev/C{}.exit"
   printf "%s" "$n" >> "$out"
   for i in $(seq -w 1 20); do printf "\t%s" "$(cat $ev/C$i.exit)" >> "$out"; done; printf "\n" >> "$out"
   echo "$n $(for i in $(seq -w 1 20); do [ "$(cat $ev/C$i.exit)" != 0 ] && printf "C$i=%s " "$(cat $ev/C$i.exit)"; done)"
